@@ -276,6 +276,9 @@ def _diff_merge(a, b, g):
     if not _diff_pairs(a, b, pairs) or len(pairs) != 1:
         return None
     (x, y), = pairs
+    is_text = lambda u: u[0] == "fstr" or (u[0] == "const" and isinstance(u[1], str))
+    if not (is_text(x) or is_text(y)):
+        return None  # only a text field chosen by the branch is folded; arithmetic stays on its own path
     hole = ("ifexp", g, x, y)
 
     def build(u, v):
@@ -292,6 +295,24 @@ def _merge_branch_returns(rets):
     """A value chosen by an if statement before the return is the conditional expression of its two values: pairs of
     return paths whose guards differ in exactly one decision, and whose values differ in one place, are folded."""
     items = [(tuple(p.guards()), p, r) for p, r in rets]
+    # the branch of `a or b` not taken is recorded as (a, False), (b, False); of `a and b` taken as (a, True), (b, True):
+    # put the disjunction / conjunction back so that both branches of one decision have guard lists of one length
+    whole = {}
+    for gs, _, _ in items:
+        for g, v in gs:
+            if g[0] == "boolop" and ((g[1] == "or" and v is True) or (g[1] == "and" and v is False)):
+                whole[(g, v)] = tuple((op, not v) for op in g[2])
+    if whole:
+        norm = []
+        for gs, p, r in items:
+            for (g, v), run in whole.items():
+                n = len(run)
+                for k in range(len(gs) - n + 1):
+                    if gs[k:k + n] == run:
+                        gs = gs[:k] + ((g, not v),) + gs[k + n:]
+                        break
+            norm.append((gs, p, r))
+        items = norm
     changed = True
     while changed:
         changed = False
